@@ -14,7 +14,6 @@ import (
 	"sort"
 	"sync"
 	"sync/atomic"
-	"testing"
 	"time"
 
 	"github.com/sarchlab/akita/v5/hooking"
@@ -498,88 +497,90 @@ func c40Client(s *c40Sim, reqs []c40Req, served *[]c40Served) func() {
 	}
 }
 
-// c40RunCase is what the child process does: the unmonitored leg, then the
-// monitored leg with the client, in one process (the ID generator is reset in
-// between; IDs are not part of the fingerprint).
-func c40RunCase(c c40Case, dir string) c40Result {
+// c40ChildReq is what the parent asks a child to do with a case.
+type c40ChildReq struct {
+	Case c40Case `json:"case"`
+	Base bool    `json:"base"` // run the unmonitored leg
+	Mon  bool    `json:"mon"`  // run the monitored leg with the client
+}
+
+// c40RunCase is what the child process does: the unmonitored leg and/or the
+// monitored leg with the client (the ID generator is reset per leg; IDs are
+// not part of the fingerprint).
+func c40RunCase(rq c40ChildReq, dir string) c40Result {
+	c := rq.Case
 	res := c40Result{Race: raceEnabled}
 	if c.Procs > 0 {
 		runtime.GOMAXPROCS(c.Procs)
 	}
 
-	base, err := c40Build(c, false, dir)
-	if err != nil {
-		res.Hang = "build-base: " + err.Error()
-		return res
+	if rq.Base {
+		base, err := c40Build(c, false, dir)
+		if err != nil {
+			res.Hang = "build-base: " + err.Error()
+			return res
+		}
+		t0 := time.Now()
+		o, hang := base.runLeg(c, nil)
+		res.BaseMS = time.Since(t0).Milliseconds()
+		if hang {
+			res.Hang = "base"
+			return res
+		}
+		res.Base = o
+		base.sim.Terminate()
 	}
-	t0 := time.Now()
-	o, hang := base.runLeg(c, nil)
-	res.BaseMS = time.Since(t0).Milliseconds()
-	if hang {
-		res.Hang = "base"
-		return res
-	}
-	res.Base = o
-	base.sim.Terminate()
 
-	mon, err := c40Build(c, true, dir)
-	if err != nil {
-		res.Hang = "build-mon: " + err.Error()
-		return res
-	}
-	res.Port = mon.port
-	var served []c40Served
-	var clientMS int64
-	cl := c40Client(mon, c.Reqs, &served)
-	t0 = time.Now()
-	o, hang = mon.runLeg(c, func() {
-		t1 := time.Now()
-		cl()
-		clientMS = time.Since(t1).Milliseconds()
-	})
-	res.MonMS = time.Since(t0).Milliseconds()
-	if hang {
-		res.Hang = "monitored"
+	if rq.Mon {
+		mon, err := c40Build(c, true, dir)
+		if err != nil {
+			res.Hang = "build-mon: " + err.Error()
+			return res
+		}
+		res.Port = mon.port
+		var served []c40Served
+		var clientMS int64
+		cl := c40Client(mon, c.Reqs, &served)
+		t0 := time.Now()
+		o, hang := mon.runLeg(c, func() {
+			t1 := time.Now()
+			cl()
+			clientMS = time.Since(t1).Milliseconds()
+		})
+		res.MonMS = time.Since(t0).Milliseconds()
+		if hang {
+			res.Hang = "monitored"
+			res.Served = served
+			return res
+		}
+		res.ClientMS = clientMS
+		res.Mon = o
 		res.Served = served
-		return res
+		mon.sim.Terminate()
 	}
-	res.ClientMS = clientMS
-	res.Mon = o
-	res.Served = served
-	mon.sim.Terminate()
 	return res
 }
 
-// TestChildC40 is the child-process entry point. It is not a check by itself
-// (its name does not start with TestC40) and does nothing unless the parent
-// named a case file.
-func TestChildC40(t *testing.T) {
-	cf := os.Getenv("VERIF_C40_CASE")
-	if cf == "" {
-		t.Skip("child entry point")
-	}
+// c40ServeCase runs one request file in this (child) process. It returns true
+// when the process must not be reused.
+func c40ServeCase(cf, of string) bool {
+	var res c40Result
 	b, err := os.ReadFile(cf)
+	var rq c40ChildReq
+	if err == nil {
+		err = json.Unmarshal(b, &rq)
+	}
 	if err != nil {
-		t.Fatal(err)
+		res.Hang = "harness: " + err.Error()
+	} else {
+		res = c40RunCase(rq, filepath.Dir(cf))
 	}
-	var c c40Case
-	if err := json.Unmarshal(b, &c); err != nil {
-		t.Fatal(err)
-	}
-	dir := filepath.Dir(cf)
-	res := c40RunCase(c, dir)
 	if res.Hang != "" {
 		buf := make([]byte, 1<<20)
 		buf = buf[:runtime.Stack(buf, true)]
 		_ = os.WriteFile(cf+".goroutines", buf, 0o644)
 	}
 	ob, _ := json.Marshal(res)
-	if err := os.WriteFile(os.Getenv("VERIF_C40_OUT"), ob, 0o644); err != nil {
-		t.Fatal(err)
-	}
-	if res.Hang != "" {
-		// Do not wait for wedged goroutines.
-		os.Exit(3)
-	}
+	_ = os.WriteFile(of, ob, 0o644)
+	return res.Hang != ""
 }
-
